@@ -143,13 +143,15 @@ class time_limit:
             def handler(signum, frame):
                 raise CaseTimeLimit()
             self.old = signal.signal(signal.SIGALRM, handler)
-            signal.alarm(self.seconds)
+            # re-armed every 5 s: an exception raised inside a callback of
+            # native code (or under a broad except) can be swallowed once
+            signal.setitimer(signal.ITIMER_REAL, self.seconds, 5)
         return self
 
     def __exit__(self, *a):
         import signal
         if self.active:
-            signal.alarm(0)
+            signal.setitimer(signal.ITIMER_REAL, 0)
             signal.signal(signal.SIGALRM, self.old)
         return False
 
